@@ -165,6 +165,14 @@ CLAIMED = {
     note="Exactness only at grid nodes of quadratic psi; interpolation accuracy between nodes and the bundled data files themselves are not checked.",
     technique="TLA+ exact node table enumerated by TLC, one evaluation per row on a real equilibrium; identities with recorded inputs on bundled equilibria",
     design="4.12"),
+ "C08": dict(
+    text="AdfFormat.tla describes ADF11, ADF12, ADF15, ADF21 and ADF22 files as abstract documents (grid sizes incl. non-multiples of the values per line, block ranges up to 18 charge states, "
+         "six ADF11 classes with their charge-state convention, three ADF15 header conventions with EXCIT/RECOM/CHEXC blocks, index order differing from block order, an index entry without block, "
+         "element mismatch, ADF12 used counts below the fixed capacities) whose every numeric entry is a distinct function of (block, row, column), and states the documented conventions; TLC enumerates "
+         "~2 300 documents, each rendered by an independent writer, parsed, installed into a temporary repository and read back, compared entry by entry (1e-12) incl. rejections and stray files under $HOME.",
+    note="No real ADAS files offline: ADF11 layout and all value/wrapping layouts follow the published fixed-width formats, but header column positions of ADF12/21/22 and the wording of ADF15 index lines follow what the parser documents; resolved ADF11 not generated.",
+    technique="TLA+ abstract document table enumerated by TLC, independent writer -> parser/installer round trip per document",
+    design="4.8"),
 }
 
 NOT_YET = {}
